@@ -53,6 +53,7 @@ Inductive op :=
 | Add (t : N) | AddAll
 | Commit                               (* dolt_commit('-m'): the staged root becomes the new head *)
 | Stash | Pop
+| StashBad                             (* dolt_stash('push', <illegal name>): fails (invalid dataset id) *)
 | ResetHard | ResetHardTo (c : N)
 | ResetSoft | ResetSoftT (t : N)       (* dolt_reset() / dolt_reset('t'): unstage *)
 | ResetSoftTo (c : N)                  (* dolt_reset('--soft', commit): only HEAD moves *)
@@ -127,6 +128,7 @@ Definition step (s : st) (o : op) : option st :=
              | Some (w', e) => Some (set_stashes (set_cur s w') (e :: s_stashes s))
              | None => None
              end
+  | StashBad => None
   | Pop => match s_stashes s with
            | e :: rest => match do_pop w e with
                           | Some w' => Some (set_stashes (set_cur s w') rest)
